@@ -39,8 +39,24 @@ EXPLANATION = (
     "implicit dependencies, so no schedule reads a stub before it exists.  "
     "Cycles: first-pass outputs carry a distinct non-empty suffix and "
     "second-pass deps are extended by the cycle (R19.3).  R19.4 decides that "
-    "every path field of the build line is escaped for exactly the "
-    "characters ninja's lexer can unescape; R19.5 that the imports-file "
+    "every path field of the build line is escaped exactly once and that "
+    "escape_ninja_path computes, for EVERY path, the one function ninja's "
+    "lexer inverts: each newline, space, ':' and '$' becomes '$' + itself "
+    "whatever surrounds it, everything else is copied.  The substitution is "
+    "followed through re.sub / re.compile(..).sub / a name bound once to "
+    "re.compile(..) (module level or local) and a template or function "
+    "replacement (lambda / def of the module, interpreted over its AST, "
+    "never executed).  The pattern is parsed with re._parser; for a pattern "
+    "without anchors, look-around and back-references and of width 1..4 "
+    "the effect of re.sub at a position depends only on the next few "
+    "characters, so checking every window over the escapable characters "
+    "plus one representative of each class of characters the pattern cannot "
+    "tell apart (matched by the reference engine on the constant pattern) "
+    "is a proof for all paths; outside that fragment only concrete short "
+    "counterexample paths are reported, otherwise ANALYSIS-ERROR.  An "
+    "alternative such as `\\$[ :$]` whose match is returned unchanged "
+    "('already escaped') is a violation: the path `US$ prices` would be "
+    "read back by ninja as `US prices`.  R19.5 decides that the imports-file "
     "writer and reader agree on separator, order and split count; R19.6 that "
     "the `$` variables of the command are the ones the build statement "
     "defines.  Not decided: importlab's dependency graph itself, ninja's "
@@ -57,6 +73,12 @@ ASSUMPTIONS = [
     "identified by data flow, never by name",
     "short paths (keys of the imports file) contain no space; the reader "
     "splits at the first separator only",
+    "escape_ninja_path is always given an unescaped path (its callers are "
+    "decided by R19.4's exactly-once clause), so leaving `$x` sequences alone "
+    "is never correct; characters are sampled from U+0000..U+02FF when the "
+    "classes of the pattern are partitioned; `re` in pytype_runner.py is the "
+    "standard module and the constant pattern behaves as in this "
+    "interpreter's `re` (reference engine)",
 ]
 
 RUN = "pytype/tools/analyze_project/pytype_runner.py"
